@@ -80,8 +80,9 @@ ASSUME Small == 2 * 29 + 29 * 8 < 2147483647 /\ \A b \in Beta2s : b <= 8
 VARIABLES ph, ps,   \* register P: history and state per slot
           qh, qs,   \* register Q
           trace,    \* the calls so far with their expected answers (only when recording)
-          sid       \* scripted mode: which script this behaviour follows (0 in free mode)
-vars == <<ph, ps, qh, qs, trace, sid>>
+          sid,      \* scripted mode: which script this behaviour follows (0 in free mode)
+          script    \* scripted mode: its calls
+vars == <<ph, ps, qh, qs, trace, sid, script>>
 
 Fresh == [pos |-> 0, c1 |-> <<>>, c2 |-> <<>>]                          \* update_input of an empty dictionary
 
@@ -141,17 +142,18 @@ FullDecl(h) == [p \in 1..Len(h) + 1 |-> [lw1 |-> Dist1(Prefix(h, p - 1)), lw2 |-
 (*    illegal one is skipped -- and what every call must answer).            *)
 (***************************************************************************)
 NoScripts == <<>>
-Scripted == Scripts # <<>>
+Scripted == sid > 0                           \* (the constant Scripts is only read by Init: it is big)
 Rec == Depth > 0 \/ Scripted
-Limit == IF Scripted THEN (IF sid = 0 THEN 0 ELSE Len(Scripts[sid].ops)) ELSE Depth
+Limit == IF Scripted THEN Len(script) ELSE Depth
 More == ~Rec \/ Len(trace) <= Limit           \* trace[1] is the initial record
 Done == Rec /\ Len(trace) = Limit + 1
 Prune == Rec /\ ~Scripted
 View(h, s) == [h |-> h, pos |-> [n \in Slots |-> s[n].pos], c1 |-> [n \in Slots |-> s[n].c1], c2 |-> [n \in Slots |-> s[n].c2]]
 Log(op) == trace' = IF Rec THEN Append(trace, op @@ [p |-> View(ph', ps'), q |-> View(qh', qs')]) ELSE trace
 
-Init == /\ IF Scripted THEN \E i \in 1..Len(Scripts) : sid = i /\ ph = Scripts[i].init
-           ELSE sid = 0 /\ ph \in [Slots -> Hists(InitLens)]
+Init == /\ \E S \in {Scripts} :
+             IF S # <<>> THEN \E i \in 1..Len(S) : sid = i /\ ph = S[i].init /\ script = S[i].ops
+             ELSE sid = 0 /\ script = <<>> /\ ph \in [Slots -> Hists(InitLens)]
         /\ ps = [n \in Slots |-> Fresh]
         /\ qh = ph /\ qs = ps
         /\ trace = IF Rec THEN <<[op |-> "Init", p |-> View(ph, ps), q |-> View(ph, ps)]>> ELSE <<>>
@@ -162,7 +164,7 @@ Step ==
   /\ More /\ CanStep
   /\ qs' = [n \in Slots |-> StepSlot(ps[n], ph[n])]
   /\ qh' = ph
-  /\ UNCHANGED <<ph, ps, sid>>
+  /\ UNCHANGED <<ph, ps, sid, script>>
   /\ LET idx == [n \in Slots |-> ps[n].pos]
          d1 == [n \in Slots |-> Dist1(Prefix(ph[n], idx[n]))]
          d2 == [n \in Slots |-> Dist2(Prefix(ph[n], idx[n]))]
@@ -176,27 +178,27 @@ Varied(h, s) == ~Prune \/ \E n, m \in Slots : <<h[n], s[n]>> # <<h[m], s[m]>>
 ExtractP(src) ==
   /\ More /\ Varied(ph, ps)
   /\ ph' = ExH(ph, src) /\ ps' = ExS(ps, src)
-  /\ UNCHANGED <<qh, qs, sid>>
+  /\ UNCHANGED <<qh, qs, sid, script>>
   /\ Log([op |-> "ExtractP", src |-> src,
           \* Extract(a) then Extract(b) must equal Extract(a o b) of the state before: the harness applies comp to it
           comp |-> IF LastIs("ExtractP") THEN Compose(trace[Len(trace)].src, src) ELSE <<>>])
 ExtractQ(src) ==
   /\ More /\ Varied(qh, qs)
   /\ qh' = ExH(qh, src) /\ qs' = ExS(qs, src)
-  /\ UNCHANGED <<ph, ps, sid>>
+  /\ UNCHANGED <<ph, ps, sid, script>>
   /\ Log([op |-> "ExtractQ", src |-> src,
           comp |-> IF LastIs("ExtractQ") THEN Compose(trace[Len(trace)].src, src) ELSE <<>>])
 \* prev = in_next (no model call)
 Take ==
   /\ More /\ (~Prune \/ <<ph, ps>> # <<qh, qs>>)
   /\ ph' = qh /\ ps' = qs
-  /\ UNCHANGED <<qh, qs, sid>>
+  /\ UNCHANGED <<qh, qs, sid, script>>
   /\ Log([op |-> "Take"])
 \* P := mix_by_mask(P, Q, mask), histories mixed alike
 Mix(mask) ==
   /\ More /\ (~Prune \/ <<ph, ps>> # <<qh, qs>>)
   /\ ph' = MixH(ph, qh, mask) /\ ps' = MixOf(ps, qs, mask)
-  /\ UNCHANGED <<qh, qs, sid>>
+  /\ UNCHANGED <<qh, qs, sid, script>>
   /\ Log([op |-> "Mix", mask |-> mask])
 \* the decoder appends a token to every history of the register that is not yet L long
 Room(h) == \E n \in Slots : Len(h[n]) < L
@@ -205,17 +207,17 @@ Canon(h, toks) == Scripted \/ \A n \in Slots : Len(h[n]) >= L => toks[n] = 0
 AppendP(toks) ==
   /\ More /\ Room(ph) /\ Canon(ph, toks)
   /\ ph' = Grow(ph, toks)
-  /\ UNCHANGED <<ps, qh, qs, sid>>
+  /\ UNCHANGED <<ps, qh, qs, sid, script>>
   /\ Log([op |-> "AppendP", toks |-> toks])
 AppendQ(toks) ==
   /\ More /\ Room(qh) /\ Canon(qh, toks)
   /\ qh' = Grow(qh, toks)
-  /\ UNCHANGED <<ph, ps, qs, sid>>
+  /\ UNCHANGED <<ph, ps, qs, sid, script>>
   /\ Log([op |-> "AppendQ", toks |-> toks])
 \* forward(P.hist, idx=None): all positions at once from a fresh state; no register changes
 Full ==
   /\ Rec /\ More /\ (Scripted \/ ~LastIs("Full"))
-  /\ UNCHANGED <<ph, ps, qh, qs, sid>>
+  /\ UNCHANGED <<ph, ps, qh, qs, sid, script>>
   /\ Log([op |-> "Full",
           rows |-> [n \in Slots |-> [p \in 1..Len(ph[n]) + 1 |->
                       LET d == FullDecl(ph[n])[p]
@@ -223,7 +225,7 @@ Full ==
 \* a scripted call that is not legal in the current state
 Skip ==
   /\ More
-  /\ UNCHANGED <<ph, ps, qh, qs, sid>>
+  /\ UNCHANGED <<ph, ps, qh, qs, sid, script>>
   /\ Log([op |-> "Skip"])
 
 FreeNext == \/ Step
@@ -236,7 +238,7 @@ FreeNext == \/ Step
             \/ Full
 ScriptNext ==
   /\ More
-  /\ LET o == Scripts[sid].ops[Len(trace)]
+  /\ LET o == script[Len(trace)]
      IN \/ o.op = "Step" /\ Step
         \/ o.op = "Step" /\ ~CanStep /\ Skip
         \/ o.op = "ExtractP" /\ o.a \in Srcs /\ ExtractP(o.a)
